@@ -32,7 +32,7 @@ func c08configs() []c08cfg {
 				Functions: []KV{{"f1", "pk.FnStr"}, {"f2", "ab.FnInt"}, {"f3", `"fx/a".FnE`}}},
 			Params: []Param{{"p3", "%f3()%%p1%"}, {"p1", 1}, {"p2", "%f1()%-%f2()%-%p1%"}},
 			Services: []Service{
-				{Name: "s3", Constructor: P("ab/sub.New"), Args: []any{"@s1", "%p2%", "!value a.Var"}, Fields: []KV{{"Fz", 1}, {"Fa", "@s1"}, {"Fm", "%p3%"}}, Tags: []Tag{{Name: "tg"}}},
+				{Name: "s3", Constructor: P("ab/sub.New"), Args: []any{"@s1", "%p2%", "!value a.Var"}, Fields: []KV{{"Fz", "!value \"fx/b/pkg\".Var"}, {"Fa", "@s1"}, {"Fm", "%p3%"}, {"Fb", "!value \"fx/errors\".Const"}, {"Fc", "!value \"fx/os\".Var"}}, Tags: []Tag{{Name: "tg"}}},
 				{Name: "s1", Constructor: P("a.New"), Getter: P("GetS1"), Type: P("*zz.Obj")},
 				{Name: "s2", Value: P("&ab.Obj{}"), Fields: []KV{{"F2", 2}, {"F1", "!tagged tg"}}},
 			},
@@ -43,6 +43,18 @@ func c08configs() []c08cfg {
 	var out []c08cfg
 	out = append(out, c08cfg{id: "valid-rich", files: one(rich())})
 	out = append(out, c08cfg{id: "valid-rich-stub", files: one(rich()), flags: []string{"--stub"}})
+	out = append(out, c08cfg{id: "case-colliding-keys", files: one(&Cfg{
+		Meta:   &Meta{Pkg: P("gen"), Imports: []KV{{"pk", "fx/pk"}, {"PK", "fx/pk2"}, {"Pk", "fx/ab"}}, Functions: []KV{{"fn", "pk.FnStr"}, {"FN", "PK.FnInt"}, {"Fn", "Pk.FnNil"}}},
+		Params: []Param{{"name", "%fn()%"}, {"Name", "%FN()%%gone%"}, {"NAME", "%Fn()%%lost%"}, {"nAme", 4}},
+		Services: []Service{{Name: "db", Constructor: P("pk.New"), Args: []any{"@missingB"}, Fields: []KV{{"f1", "!value PK.Var"}, {"F1", "!value Pk.Var"}}},
+			{Name: "DB", Constructor: P("PK.New"), Args: []any{"@missingA"}}, {Name: "Db", Constructor: P("Pk.New"), Args: []any{"%nope%"}}},
+	})})
+	out = append(out, c08cfg{id: "case-colliding-keys-valid", files: one(&Cfg{
+		Meta:   &Meta{Pkg: P("gen"), Imports: []KV{{"pk", "fx/pk"}, {"PK", "fx/pk2"}, {"Pk", "fx/ab"}}, Functions: []KV{{"fn", "pk.FnStr"}, {"FN", "PK.FnInt"}, {"Fn", "Pk.FnNil"}}},
+		Params: []Param{{"name", "%fn()%"}, {"Name", "%FN()%"}, {"NAME", "%Fn()%"}, {"nAme", 4}},
+		Services: []Service{{Name: "db", Constructor: P("pk.New"), Fields: []KV{{"f1", "!value PK.Var"}, {"F1", "!value Pk.Var"}}},
+			{Name: "DB", Constructor: P("PK.New")}, {Name: "Db", Constructor: P("Pk.New")}},
+	})})
 	out = append(out, c08cfg{id: "valid-three-files", files: func() []File {
 		r := rich()
 		a := &Cfg{Meta: r.Meta, Params: r.Params[:2]}
